@@ -170,7 +170,7 @@ func (ka *kindAnalysis) accepted(fn *ssa.Function, idx int) []string {
 // drop-last) are compared pairwise. Where one of them refuses a kind another accepts - nil, the empty
 // sequence of the language, say - one of the two is outside the documented model.
 func siblingDomainRule(w *World, r *Report, rule string) {
-	r.rule(rule, "the registered builtins of lib/core with the Go signature (int, MalType) (MalType, error) - the count-taking sequence builtins take, take-last, drop, drop-last - accept the same kinds of value for their sequence argument (decided per kind by following each function's control flow with the argument's dynamic type fixed, through the helpers it hands the argument to): none of them fails on nil or on a vector where its siblings answer")
+	r.rule(rule, "the registered builtins of lib/core with the Go signature (int, MalType) (MalType, error) - the count-taking sequence builtins take, take-last, drop, drop-last - that answer for both lists and vectors and refuse plain values accept the same further kinds (nil, maps, sets) for their sequence argument (decided per kind by following each function's control flow with the argument's dynamic type fixed, through the helpers it hands the argument to): none of them fails on nil or on a vector where its siblings answer")
 	ka := newKindAnalysis(w)
 	type sib struct {
 		fn    *ssa.Function
@@ -184,7 +184,17 @@ func siblingDomainRule(w *World, r *Report, rule string) {
 		if !isIntType(fn.Params[0].Type()) || !isMalType(fn.Params[1].Type()) || hasErrorResult(fn) != 1 {
 			continue
 		}
-		sibs = append(sibs, sib{fn, strings.Join(ka.accepted(fn, 1), ",")})
+		// a sequence consumer: it answers for lists and for vectors, and refuses what is no collection at all
+		// (a builtin of the same Go signature that takes any value - a repeat, say - is no sibling)
+		acc := ka.accepted(fn, 1)
+		has := map[string]bool{}
+		for _, k := range acc {
+			has[k] = true
+		}
+		if !has["List"] || !has["Vector"] || has["int"] || has["string"] {
+			continue
+		}
+		sibs = append(sibs, sib{fn, strings.Join(acc, ",")})
 	}
 	sort.Slice(sibs, func(i, j int) bool { return sibs[i].fn.Name() < sibs[j].fn.Name() })
 	groups := map[string][]string{}
